@@ -243,7 +243,7 @@ NOTES = {
     "C12-i": ("set_response(true) also sets TC on a query larger than max(512, advertised payload)", "MISSED at first (every packet of the flag sweep had 29 or 40 bytes); added packets of exact sizes around 512, the advertised payload, 4096, 8192 and 64 KiB, with and without OPT - now caught"),
     "C13-i": ("white space inside the parentheses of SOA skipped with is_ascii_whitespace: a vertical tab is refused", "MISSED at first; CR, VT and FF added to the white space generated inside SOA parentheses - now caught"),
     "C14-i": ("length test rearranged into 253 - suffix.len(): with a default zone of 254 or 255 bytes it underflows (panic in debug, over-long name accepted in release)", "MISSED at first (one short default zone); added default zones of 100..255 wire bytes - now caught"),
-    "C16-i": ("per-thread error slot drawn from a 16-bit counter of threads that ever failed", "the quick schedules stopped at 4097 sequential threads: the search that follows a broken obligation found HS,65536; 65537 sequential threads are now part of the quick tier - caught with an input"),
+    "C16-i": ("per-thread error slot drawn from a 16-bit counter of threads that ever failed", "the quick schedules stop at 4097 sequential threads; the change breaks the regenerated inventory of ambient state, and the search that follows a broken obligation (thorough generator) finds HS,65536 - caught with an input. 65537 sequential threads were put into the quick tier for one commit and taken out again: on a loaded machine the run hit the watchdog (a false alarm of the check, not of the code)"),
     "C17-i": ("recompute() skips decompression when its packet has the address and length of the buffer the last direct decompression returned", "first run: only the regenerated inventory broke (no-failing-input-found); added parse + recompute (operation PR) after a decompression whose result has exactly that length - now caught with an input (the allocator hands the freed block back)"),
     "C03-j": ("name() answers from the cached question when the owner is a bare pointer whose LOW byte is 12: pointers to 268, 524, ... read as the question name once a question getter has run", "MISSED at first; a question getter is now placed among the walks of every packet and labels are placed at 256k + 12 (268, 524, 780, 4108, 16140) - now caught"),
     "C05-j": ("MX data ending in a zero byte copied verbatim: an exchange that ends with a pointer to an offset that is a multiple of 256", "caught at once (labels placed at 256, 512, 768, 4096, 8192 and named from MX data)"),
